@@ -71,7 +71,7 @@ L(cfg, o, s) ==
     [] cfg.kind = "Take" -> FirstN(s, cfg.n)
     [] cfg.kind = "TakeWhile" -> TakeWhileL(s, cfg.pred)
     [] cfg.kind = "Fold" -> <<FoldL(cfg.monoid, MEmpty(cfg.monoid), s)>>
-    [] cfg.kind \in {"Throttling", "New"} -> s
+    [] cfg.kind \in {"Throttling", "New", "ToSeq"} -> s
     [] OTHER -> <<>>
 \* the elements on which the user function is expected to be entered
 CalledL(cfg, s) ==
@@ -87,12 +87,12 @@ AllInClosed(obs) == \A i \in 1..NIn(obs) : obs.closed[i]
 AllSeen(obs) == \A o \in obs.outs : obs.seen[o]
 Drained(obs) == \A o \in obs.outs : obs.rp[o] \/ obs.seen[o]
 CallXs(obs) == [j \in 1..Len(obs.calls) |-> obs.calls[j].x]
-OneIn(cfg) == cfg.kind \in SeqKinds \cup {"Throttling", "New"}
+OneIn(cfg) == cfg.kind \in SeqKinds \cup {"Throttling", "New", "ToSeq"}
 
 (* ==================================================================================== C05 / C06 / C07 / C09 *)
 \* what has been delivered is always a prefix (parallel stages: a sub-multiset) of the uncancelled result
 Prefix(cfg, obs) ==
-  (cfg.kind \in (SeqKinds \ {"Fold"}) \cup {"Throttling", "New"}) =>
+  (cfg.kind \in (SeqKinds \ {"Fold"}) \cup {"Throttling", "New", "ToSeq"}) =>
     \A o \in obs.outs : IF Parallel(cfg) THEN SubBag(obs.got[o], L(cfg, o, Offered(obs, 1)))
                                          ELSE IsPrefix(obs.got[o], L(cfg, o, Offered(obs, 1)))
 \* Fold: at most one value, and it is the fold of everything offered, from the monoid's Empty
@@ -105,6 +105,10 @@ Complete(cfg, obs) ==
   (OneIn(cfg) /\ ~obs.cancelled /\ AllInClosed(obs) /\ AllSeen(obs)) =>
     \A o \in obs.outs : IF Parallel(cfg) /\ cfg.kind # "Fold" THEN BagEq(obs.got[o], L(cfg, o, obs.sent[1]))
                                                               ELSE obs.got[o] = L(cfg, o, obs.sent[1])
+\* Seq lifts a list into a (closed) channel: exactly its elements, in order
+SeqExact(cfg, obs) == cfg.kind = "Seq" => /\ IsPrefix(obs.got["out"], cfg.inputs[1])
+                                          /\ obs.seen["out"] => obs.got["out"] = cfg.inputs[1]
+                                          /\ (obs.quiet /\ obs.rp["out"]) => FALSE
 \* Take never consumes more than n elements
 TakeBound(cfg, obs) == (cfg.kind = "Take" /\ cfg.n >= 0 /\ obs.quiet) => Len(obs.sent[1]) - obs.inLen[1] <= cfg.n
 \* the user function is entered once per element it has to process, in input order (parallel: as a multiset),
@@ -211,7 +215,7 @@ ThrottlePaced(cfg, obs) ==
 \* name -> truth; PipeTraceP prints the names that are FALSE.  Which names belong to which property is decided by
 \* the orchestrator (lib/fam_pipe.py: PREDS).
 Verdicts(cfg, obs) ==
-  [Prefix |-> Prefix(cfg, obs), FoldRes |-> FoldRes(cfg, obs), Complete |-> Complete(cfg, obs), TakeBound |-> TakeBound(cfg, obs),
+  [Prefix |-> Prefix(cfg, obs), SeqExact |-> SeqExact(cfg, obs), FoldRes |-> FoldRes(cfg, obs), Complete |-> Complete(cfg, obs), TakeBound |-> TakeBound(cfg, obs),
    CallsPrefix |-> CallsPrefix(cfg, obs), CallsComplete |-> CallsComplete(cfg, obs), NoPanic |-> NoPanic(cfg, obs),
    Settle1 |-> Settle1(cfg, obs), Settle2 |-> Settle2(cfg, obs),
    NeverBlocksSender |-> NeverBlocksSender(cfg, obs), LosslessAfterCancel |-> LosslessAfterCancel(cfg, obs), NewSettle |-> NewSettle(cfg, obs),
